@@ -26,15 +26,15 @@ const atlasHost = "cloud.mongodb.com"
 
 // answers of the fake server
 const (
-	AnsDigest  = "digest"  // 401 + WWW-Authenticate: Digest … (only meaningful for an unauthenticated request)
-	AnsOK      = "ok"      // 200 with the scripted body
-	AnsBasic   = "basic"   // 401 + WWW-Authenticate: Basic realm=…
-	Ans401     = "401"     // 401 without a challenge header
-	Ans403     = "403"     // 403 with a JSON error body
-	Ans404     = "404"     // 404 with a JSON error body
-	Ans500Echo = "500echo" // 500 whose body echoes the request line and all request headers
-	AnsNetErr  = "neterr"  // transport error (connection reset before any header)
-	AnsCut     = "cut"     // 200, body cut after Cut bytes (connection dropped mid-body)
+	AnsDigest  = "digest"    // 401 + WWW-Authenticate: Digest … (only meaningful for an unauthenticated request)
+	AnsOK      = "ok"        // 200 with the scripted body
+	AnsBasic   = "basic"     // 401 + WWW-Authenticate: Basic realm=…
+	Ans401     = "401"       // 401 without a challenge header
+	Ans403     = "403"       // 403 with a JSON error body
+	Ans404     = "404"       // 404 with a JSON error body
+	Ans500Echo = "500echo"   // 500 whose body echoes the request line and all request headers
+	AnsNetErr  = "neterr"    // transport error (connection reset before any header)
+	AnsCut     = "cut"       // 200, body cut after Cut bytes (connection dropped mid-body)
 	AnsBadDig  = "baddigest" // 401 with a malformed Digest challenge
 )
 
